@@ -48,6 +48,8 @@ pub struct Point<'a> {
     pub cas_weak: bool,
     /// Threads that have terminated.
     pub gone: &'a [bool],
+    /// What each thread is about to do at the scheduling point it is parked at ("role.n.i.kind", "inc", "dec", "inv", "" unknown).
+    pub sites: &'a [String],
 }
 
 pub trait Strategy: Send {
@@ -56,6 +58,10 @@ pub trait Strategy: Send {
     /// Should the compare_exchange_weak about to be executed fail spuriously?
     fn spurious(&mut self, _p: &Point) -> bool {
         false
+    }
+    /// How well the plan could be followed (for directed strategies).
+    fn summary(&self) -> Value {
+        json!({"plain": 1})
     }
 }
 
@@ -79,6 +85,7 @@ pub struct Inner {
     pub log_atomics: bool,
     /// Stale-value injections: (global step index -> raw value)
     pub stale: std::collections::HashMap<usize, usize>,
+    pub sites: Vec<String>,
 }
 
 pub struct Sched {
@@ -107,6 +114,7 @@ pub static SCHED: std::sync::LazyLock<Sched> = std::sync::LazyLock::new(|| Sched
         overrun: false,
         log_atomics: true,
         stale: std::collections::HashMap::new(),
+        sites: Vec::new(),
     }),
     cv: Condvar::new(),
     last_progress: AtomicU64::new(0),
@@ -151,8 +159,10 @@ impl Inner {
         let cur_runnable = runnable.contains(&cur);
         let mut strategy = self.strategy.take().expect("strategy");
         let gone: Vec<bool> = self.states.iter().map(|s| *s == TState::Gone).collect();
+        let sites = self.sites.clone();
         let p = Point {
             gone: &gone,
+            sites: &sites,
             cur,
             cur_runnable,
             runnable: &runnable,
@@ -181,6 +191,11 @@ impl Inner {
 /// next step. `cas_weak`: the step is a compare_exchange_weak; the result says whether it should
 /// fail spuriously.
 pub fn yield_point(cas_weak: bool) -> bool {
+    yield_at(cas_weak, "")
+}
+
+/// Like `yield_point`, telling the strategy what the thread is about to do.
+pub fn yield_at(cas_weak: bool, site: &str) -> bool {
     let me = tid();
     if me == usize::MAX || !SCHED.enabled.load(Ordering::Relaxed) {
         return false;
@@ -191,6 +206,10 @@ pub fn yield_point(cas_weak: bool) -> bool {
     }
     debug_assert_eq!(g.cur, me);
     SCHED.last_progress.store(now_ms(), Ordering::Relaxed);
+    if me < g.sites.len() {
+        g.sites[me].clear();
+        g.sites[me].push_str(site);
+    }
     let (next, spur) = g.choose(me, cas_weak);
     g.step += 1;
     if g.in_op[me] {
@@ -281,6 +300,7 @@ pub fn begin_execution(n: usize, strategy: Box<dyn Strategy>, log_atomics: bool)
     g.depth = vec![0; n];
     g.op_steps = vec![0; n];
     g.spurious_in_op = vec![0; n];
+    g.sites = vec![String::new(); n];
     g.step = 0;
     g.strategy = Some(strategy);
     g.schedule.clear();
@@ -411,7 +431,16 @@ impl Hook for TheHook {
         if tid() == usize::MAX || !SCHED.enabled.load(Ordering::Relaxed) {
             return Decision::Proceed;
         }
-        let spur = yield_point(a.kind == Kind::CasWeak);
+        let site = {
+            let mut g = lock();
+            if a.kind == Kind::Fence {
+                "fence".to_string()
+            } else {
+                let r = g.roles.classify(a.addr);
+                format!("{}.{}.{}.{}", r.0, r.1[0], r.1[1], kind_name(a.kind))
+            }
+        };
+        let spur = yield_at(a.kind == Kind::CasWeak, &site);
         if spur {
             return Decision::FailSpuriously;
         }
